@@ -250,5 +250,11 @@ def check(prop, tier, run: Run, replay_case=None):
     if prop == "C03":
         from . import corpus
         corpus.leg_t(run, prop, tier)
+        # last sentence of C03: the total-process record lists, utility by utility, the sum of its zones' duties -- judged by
+        # TraceSite on SiteGen problems (the clause is shared with C09)
+        from . import site
+        ren = {"C09.total_process_is_sum_of_zones": "C03.total_process_lists_zone_sums"}
+        site.site_leg(run, tier, ["quick2", "near"] if tier == "quick" else ["quick2", "near", "deep3"],
+                      lambda c: ren.get(c, c if c.startswith("C03.") else None))
     if tier == "thorough":
         mutant_selftest(run)
